@@ -823,6 +823,22 @@ class CallMixin:
       return [Res(s.hset('dhas', z3.Store(s.heap.get('dhas'), r, z3.K(Val, z3.BoolVal(False)))), VNone)]
     return self.class_fork(recv, st, [(('list',), go_list), (('dict', 'set'), go_dict)], node, '.clear()')
 
+  def me_remove(self, recv, pos, kw, st, node):
+    """set.remove(x): KeyError if absent."""
+    def go(s):
+      r = ref(recv)
+      x = self.need_val(pos[0], node)
+      out = []
+      for s2, present in self.fork(s, s.heap.has(r, x)):
+        if present:
+          h = s2.heap
+          out.append(Res(s2.with_heap(h.set('dhas', z3.Store(h.get('dhas'), r,
+                                                           z3.Store(h.hasarr(r), x, False)))), VNone))
+        else:
+          out.append(self.exc_res(s2, 'KeyError', origin=f'set.remove@{node.lineno}'))
+      return out
+    return self.class_fork(recv, st, [(('set',), go)], node, '.remove()')
+
   def me_add(self, recv, pos, kw, st, node):
     def go(s):
       r = ref(recv)
